@@ -271,17 +271,21 @@ def expected_trace(k, n_paths, n_times, init_state, validation, lazy_init, fwd_p
 
 
 def reference_fit(hedger, derivative, hedge, make_optimizer, k, n_paths, n_times, init_state,
-                  validation, on_grad=None, on_step=None, payoff_of=None):
+                  validation, on_grad=None, on_step=None, payoff_of=None, portfolio_of=None):
     """The explicit training loop of the property: k times (fresh batch of n_paths paths from
     init_state, criterion of the hedging portfolio against the payoff in training mode,
     backward from zeroed gradients, one optimiser step), each followed - when validation is on -
     by n_times gradient-free evaluations in evaluation mode whose plain mean is the epoch's
     history entry.  The liability is the CONTRACTUAL payoff ``payoff_of()`` (the harness passes its own model of
-    the contract: base payoff folded through every clause), never a shortcut of the library.  ``make_optimizer()`` builds (or returns) the optimiser; it is called once,
+    the contract: base payoff folded through every clause), never a shortcut of the library; the hedging
+    portfolio ``portfolio_of()`` is the self-financing wealth of the hedge the model computes, priced and charged with the
+    harness' own list of instruments and cost rates.  ``make_optimizer()`` builds (or returns) the optimiser; it is called once,
     before the first epoch, and also when k == 0."""
     import torch
     if payoff_of is None:
         payoff_of = derivative.payoff      # the contractual payoff (all clauses applied)
+    if portfolio_of is None:
+        portfolio_of = lambda: hedger.compute_portfolio(derivative, hedge=hedge)
     opt = make_optimizer()
     history = []
     for e in range(k):
@@ -289,7 +293,7 @@ def reference_fit(hedger, derivative, hedge, make_optimizer, k, n_paths, n_times
         opt.zero_grad()
         derivative.simulate(n_paths=n_paths, init_state=init_state)
         with torch.enable_grad():
-            portfolio = hedger.compute_portfolio(derivative, hedge=hedge)
+            portfolio = portfolio_of()
             loss = hedger.criterion(portfolio, payoff_of())
         loss.backward()
         if on_grad is not None:
@@ -303,7 +307,7 @@ def reference_fit(hedger, derivative, hedge, make_optimizer, k, n_paths, n_times
             with torch.no_grad():
                 for _ in range(n_times):
                     derivative.simulate(n_paths=n_paths, init_state=init_state)
-                    portfolio = hedger.compute_portfolio(derivative, hedge=hedge)
+                    portfolio = portfolio_of()
                     vals.append(float(hedger.criterion(portfolio, payoff_of())))
             history.append(vals)
     return (history if validation else None), opt
